@@ -52,7 +52,7 @@ def variants():
 
 
 def budget(tier):
-    return 6 if tier == "quick" else 60
+    return 6 if tier == "quick" else 16
 
 
 def decode_case(raw):
